@@ -341,8 +341,80 @@ def run_variant(params, known):
                 violations=out_v, known=kn, samples=samples, outcomes=outcomes, report_keys=['outcomes'])
 
 
+def run_route_added(params, known):
+    '''The transmit table grows while fragments wait to be sent (the adaptors add routes when a
+    session comes up): a second route for the same destinations, with a smaller / larger / no MTU and
+    another next hop, is appended before the send request, or between the request and the loop turns
+    that send the fragments.  Every bundle handed to the convergence layer fits the MTU of the route
+    it is handed over with, and the fragments tile the payload.'''
+    from .. import env as _env
+    ns = _env.load_bp()
+    violations = []
+    kinds = set()
+    count = 0
+    keys = set()
+
+    def viol(kind, detail, case):
+        if kind in kinds:
+            return
+        kinds.add(kind)
+        v = Violation(PROP, 'fragment', kind, dict(), '%r: %s' % (case, detail)).as_dict()
+        v['case'] = case
+        violations.append(v)
+    for length in (300, 1000):
+        for m1 in (150, 300):
+            for m2 in (80, 150, 600, None):
+                for when in ('before-the-request', 'after-the-request', 'after-one-loop-turn'):
+                    for origin in ('local', 'forward'):
+                        count += 1
+                        case = dict(length=length, first_route_mtu=m1, added_route_mtu=m2, added=when, origin=origin)
+                        world = BpWorld(dict(node_id=NODE, tx_routes=[('.*', 'dtn://next/', m1)],
+                                             rx_routes=[('^dtn://node/.*', 'deliver'), ('.*', 'forward')]))
+                        cfgmod = ns.config
+
+                        def add():
+                            item = cfgmod.TxRouteItem(eid_pattern=re.compile('^dtn://far/.*'), next_nodeid='dtn://other/', cl_type='udpcl', mtu=m2,
+                                                      raw_config=dict(address='10.0.0.77', port=4556))
+                            world.in_proc(world.proc, lambda: world.agent.add_tx_route(item))
+                        bundle = make_bundle(length, 1, 'hop', 0, origin)
+                        if when == 'before-the-request':
+                            add()
+                        if origin == 'local':
+                            world.send(impl_container(bundle))
+                        else:
+                            world.receive(B.encode(bundle))
+                        if when == 'after-one-loop-turn' and world.runnable(world.proc):
+                            world.run_one()
+                        if when != 'before-the-request':
+                            add()
+                        world.quiesce()
+                        keys.add('%d/%s/%s/%s/%s' % (length, m1, m2, when, origin))
+                        if world.escaped or world.api_errors:
+                            esc = (world.escaped or world.api_errors)[-1]
+                            viol('exception-escaped', '%s: %s' % (esc[0], esc[2] if world.escaped else esc[1]), case)
+                            continue
+                        cover = [0] * length
+                        for (octets, txp) in world.cl.sent:
+                            limit = m2 if str(txp.get('address')) == '10.0.0.77' else m1
+                            if limit is not None and len(octets) > limit:
+                                viol('oversized-bundle-transmitted', '%d octets handed over with the route to %s whose MTU is %s'
+                                     % (len(octets), txp.get('address'), limit), case)
+                            dec = B.decode(octets)
+                            if dec['primary']['flags'] & B.FLAG_ADMIN:
+                                continue
+                            off = dec['primary'].get('frag_offset', 0) if dec['primary']['flags'] & B.FLAG_IS_FRAGMENT else 0
+                            for i in range(off, off + len(B.payload(dec))):
+                                if i < length:
+                                    cover[i] += 1
+                        if any(c != 1 for c in cover):
+                            viol('fragments-do-not-tile-the-payload', 'octets covered 0 times: %d, more than once: %d'
+                                 % (sum(1 for c in cover if c == 0), sum(1 for c in cover if c > 1)), case)
+    return dict(name=params['name'], evaluations=count, nontrivial_keys=sorted(keys), violations=violations, known=[], samples=[])
+
+
 def scenarios(tier):
     out = []
+    out.append(dict(name='route-added', kind='enum', runner='run_route_added', params=dict(name='route-added'), weight=200))
     for (index, var) in enumerate(variants(tier)):
         (crc, ext, origin, flagname, bib, filt) = var
         npts = sum(1 for (length, spec) in grid(tier) if filt(length, spec))
@@ -359,6 +431,7 @@ ASSUMPTIONS = [
     'payload lengths 0..60, 250..262, 65530..65541; MTUs from just below the empty first fragment up to the whole bundle, '
     'for long payloads MTUs that give 1-3 fragments and the 255/256/65535/65536 boundaries',
     '"nothing sent" is accepted when one-octet fragments would not fit with a conservative slack for worst-case length heads (and for an added integrity block)',
+    'a second transmit route (other next hop, MTU 80 / 150 / 600 / none) appended before the request, right after it, or after one loop turn, while the fragments of a 300- / 1000-octet bundle wait to be sent',
     'integrity policy: one COSE_Mac0 BIB over the payload applied by the source',
 ]
 
